@@ -14,15 +14,29 @@ CONSTANTS Genes,        \* ordinals used in dna() strings
 VARIABLES sc, pc, hyper, hp, seen
 vars == <<sc, pc, hyper, hp, seen>>
 
-\* int 0..79 (decodes to ord - 40), float 0.5..40 (decodes to (ord - 40)/2 + 0.5: exact in binary)
-TheDecls == << [name |-> "a", typ |-> "int", mn |-> 0, mx |-> 158, dflt |-> 14],
-               [name |-> "b", typ |-> "float", mn |-> 1, mx |-> 80, dflt |-> 3] >>
+\* Declaration sets (bounds and defaults in half units).  Every range is a multiple of 79/2, so every letter decodes
+\* exactly in binary floating point:
+\*   control : a int [0, 79] (ord - 40), b float [0.5, 40] ((ord - 40)/2 + 0.5) - no special values
+\*   signed  : a int [-40, 39] (ord - 80: 'P' -> 0, 'O' -> -1, '(' -> min, 'w' -> max),
+\*             b float [-20, 19.5] ((ord - 80)/2: 'P' -> 0.0, 'O' -> -0.5, 'Q' -> 0.5)
+\* with defaults that are exactly 0 / 0.0, equal to min, equal to max, negative and fractional
+Decl(a, b) == << [name |-> "a", typ |-> "int", mn |-> a[1], mx |-> a[2], dflt |-> a[3]],
+                 [name |-> "b", typ |-> "float", mn |-> b[1], mx |-> b[2], dflt |-> b[3]] >>
+TheDecls == Decl(<<0, 158, 14>>, <<1, 80, 3>>)                       \* control
+DeclSets == { TheDecls,
+              Decl(<<-80, 78, 0>>, <<-40, 39, 0>>),                  \* defaults exactly 0 and 0.0, negative min
+              Decl(<<-80, 78, -80>>, <<-40, 39, 39>>),               \* default = min (negative) / = max (fractional 19.5)
+              Decl(<<-80, 78, 78>>, <<-40, 39, -40>>),               \* default = max / = min
+              Decl(<<-80, 78, -6>>, <<-40, 39, -1>>) }               \* negative int -3, negative fraction -0.5
 ExplicitSets == { << <<"a", 11, 1>>, <<"b", 5, 2>> >>,     \* a = 11, b = 2.5
                   << <<"a", 3, 1>> >>,                      \* only one of the declared names
-                  << <<"a", 0, 1>>, <<"b", 81, 2>> >> }     \* outside the declared range: still taken as given
+                  << <<"a", 0, 1>>, <<"b", 81, 2>> >>,      \* a = 0; b outside every declared range: still taken as given
+                  << <<"a", 0, 1>>, <<"b", 0, 2>> >>,       \* exactly 0 and 0.0
+                  << <<"a", -3, 1>>, <<"b", -1, 2>> >>,     \* negative, negative fraction
+                  << <<"a", -40, 1>>, <<"b", 39, 2>> >> }   \* min of the signed int, max of the signed float
 DnaStrings == {<<>>} \cup { <<x, y>> : x \in Genes, y \in Genes }
 Scenarios == { [hasExplicit |-> he, explicit |-> ex, dna |-> d, decls |-> dc] :
-                 he \in BOOLEAN, ex \in ExplicitSets \cup {<<>>}, d \in DnaStrings, dc \in {<<>>, TheDecls} }
+                 he \in BOOLEAN, ex \in ExplicitSets \cup {<<>>}, d \in DnaStrings, dc \in {<<>>} \cup DeclSets }
 WellFormed(s) == (s.hasExplicit <=> s.explicit # <<>>)
 
 Init == /\ sc \in {s \in Scenarios : WellFormed(s)}
